@@ -1117,5 +1117,28 @@ seed("c08-reader-eof-after-error", "C08", "R-dot-state-carried", "data.go",
 			r.state = stateEOF
 			break""", "after a failed read the reader reports EOF: the drain succeeds and the connection is kept")
 
+seed("c13-rcpt-recorded-early-rolled-back", "C13", "R-recipients-in-order", "conn.go",
+"""	if err := c.Session().Rcpt(recipient, opts); err != nil {
+		c.writeError(451, EnhancedCode{4, 0, 0}, err)
+		return
+	}
+	c.recipients = append(c.recipients, recipient)""", """	c.recipients = append(c.recipients, recipient)
+	if err := c.Session().Rcpt(recipient, opts); err != nil {
+		for i, r := range c.recipients {
+			if r == recipient {
+				c.recipients = append(c.recipients[:i], c.recipients[i+1:]...)
+				break
+			}
+		}
+		c.writeError(451, EnhancedCode{4, 0, 0}, err)
+		return
+	}""", "a refused repeat removes the earlier accepted occurrence: replies out of RCPT order")
+seed("c16-lmtp-fallback-per-distinct-rcpt", "C16", "R-fill-value", "conn.go",
+"""		for _, rcpt := range c.recipients {
+			status.SetStatus(rcpt, err)
+		}""", """		for rcpt := range status.statusMap {
+			status.SetStatus(rcpt, err)
+		}""", "a recipient named twice gets one status: the client's Close waits forever for the last reply")
+
 json.dump(S, open(os.path.join(os.path.dirname(os.path.abspath(__file__)), "bank.json"), "w"), indent=1)
 print(len(S), "seeds")
